@@ -1,6 +1,7 @@
 (* C18 — Schema dialect conversion preserves the set of valid instances. *)
 From Coq Require Import List String ZArith Bool.
-From AV Require Import Core.Json Deser.Model Schema.Json Schema.Versions Schema.VersionsProofs.
+From AV Require Import Core.Json Deser.Model Schema.Json Schema.Versions Schema.VersionsProofs Schema.Oas30Proofs.
+Open Scope string_scope.
 Import ListNotations.
 
 (* for every schema (any keywords, any nesting, any definitions, recursive or not) and every datum, the draft 2019-09
@@ -26,3 +27,37 @@ Theorem C18_identity_versions : forall ss ds fuel s d v, v = V2020 \/ v = VOAS31
   jvalid ss (convert_defs v ds) fuel (convert v s) d = jvalid ss ds fuel s d.
 Proof. exact convert_identity_versions. Qed.
 Print Assumptions C18_identity_versions.
+
+(* OpenAPI 3.0, under its own rules ("nullable": true lets null through, "$ref" excludes its siblings): exactly the instances
+   of the 2020-12 schema, for every schema and definitions that meet, at every node, the executable side conditions of
+   Schema/Oas30Proofs.v: (a) no keyword the dialect cannot express is dropped (dependentRequired, propertyNames, items after
+   prefixItems); (b) a schema object has one "type" keyword; (c) where null moves to "nullable" (a {"type": "null"}
+   alternative of anyOf, null in a list-valued type), the sibling keywords accept null.  For every datum and every fuel. *)
+Theorem C18_openapi_3_0_same_instances : forall ss ds fuel s d,
+  forallb okd30 (map snd ds) = true -> ok30 s = true ->
+  jvalid_v VOAS30 ss (convert_defs VOAS30 ds) fuel (convert VOAS30 s) d = jvalid ss ds fuel s d.
+Proof. exact convert_oas30_preserves. Qed.
+Print Assumptions C18_openapi_3_0_same_instances.
+
+Theorem C18_openapi_3_0_ref_has_no_sibling : forall s, ref_exclusive (convert VOAS30 s) = convert VOAS30 s.
+Proof. exact oas30_ref_has_no_sibling. Qed.
+Print Assumptions C18_openapi_3_0_ref_has_no_sibling.
+
+(* the side conditions hold of a schema with Optional, a multi-typed union, a nullable enum and a "$ref" with a sibling;
+   they fail where a tuple's "items" would be dropped *)
+Theorem C18_openapi_3_0_hypotheses_satisfiable :
+  ok30 oas30_ex = false /\
+  ok30 (JS [KwProperties [("a", JS [KwAnyOf [JS [KwType [JInteger]]; JS [KwType [JNull]]]; KwAnnot "default"]);
+                          ("b", JS [KwType [JInteger; JString]; KwCon (KMinLen 1)]);
+                          ("c", JS [KwType [JString; JNull]; KwEnum [LStr "x"; LNone]]);
+                          ("d", JS [KwRef false "D"; KwAnnot "description"])]]) = true.
+Proof. exact oas30_ex_ok. Qed.
+Print Assumptions C18_openapi_3_0_hypotheses_satisfiable.
+
+(* found while proving: the conversion before `fix: edf635c` merged a list-valued type into an existing anyOf and dropped a
+   const standing beside an enum; the proof needed two more side conditions, and these witnesses violate them *)
+Theorem C18_old_openapi_3_0_conversion_refuted :
+  (exists K d, jvalid false [] 3 (JS (old_top_oas30 K)) d = true /\ jvalid false [] 3 (JS K) d = false)
+  /\ (exists K d, jvalid false [] 3 (JS (old_top_oas30 K)) d = true /\ jvalid false [] 3 (JS K) d = false /\ has_enum K = true).
+Proof. exact oas30_old_conversion_refuted. Qed.
+Print Assumptions C18_old_openapi_3_0_conversion_refuted.
